@@ -3,6 +3,7 @@
 # applies the patch to /repo, runs the checks, undoes the patch
 patch="$1"; shift
 cd /repo || exit 2
+if [ -n "$(git status --porcelain)" ]; then echo "/repo has uncommitted changes - refusing to run"; exit 2; fi
 git apply "$patch" || { echo "patch does not apply"; exit 2; }
 trap 'git -C /repo checkout -- . ; rm -rf /verif/replays_mut' EXIT
 cd /verif
